@@ -685,7 +685,10 @@ class ISLaSolver:
                 result_states: List[SolutionState],
             ) -> Nothing:
                 assert result_states is not None
-                self.solutions.extend(self.process_new_states(result_states))
+                # Note: `process_new_states` may temporarily replace `self.solutions` (unsat
+                # check); the list to extend has to be looked up afterwards.
+                new_solutions = self.process_new_states(result_states)
+                self.solutions.extend(new_solutions)
                 return Nothing
 
             flow(
